@@ -2,6 +2,7 @@
 import os
 
 from common import Harness, VERIF, source_lines
+import cert_prop
 from kani_prop import MAPPING_SCALE, Attach, run_incrate, replay_incrate
 
 PROP = "C16"
@@ -83,10 +84,16 @@ RULE = ("one evaluation = one CBMC property decided SUCCESS in a SUCCESSFUL harn
 
 def run(tier, seed, only):
     text, hs = build(tier)
-    return run_incrate(PROP, tier, seed, only, [Attach(SRC, HOST, "verif_c16", text=text)], hs, functions(), ASSUMPTIONS,
-                       ["ahash::RandomState::new"], RULE, scalings=[MAPPING_SCALE], jobs=8)
+    note = ["end-to-end part (certificate engine, family `snapshot`: no favored/locked, root requirements are single version sets): the universe is captured with DependencySnapshot::from_provider, solved through SnapshotProvider directly and after a serde_json round trip; z3 decides SAT(Spec(U)) for the LIVE data and the snapshot verdicts must agree, snapshot solutions must satisfy Spec(U) (z3), must equal the live solution (preference order preserved), and add_package_requirement on a captured package must return an id outside the captured ones and leave them resolvable"]
+    fns = ["src/snapshot.rs: DependencySnapshot::from_provider_async, SnapshotProvider (Interner + DependencyProvider impls), Serialize/Deserialize of the snapshot (executed natively; verdicts and solutions decided against Spec(U) by z3)"]
+    return run_incrate(PROP, tier, seed, only, [Attach(SRC, HOST, "verif_c16", text=text)], hs, functions() + fns,
+                       ASSUMPTIONS + cert_prop.CERT_ASSUMPTIONS + note,
+                       ["ahash::RandomState::new"], RULE + "; certificate engine: one evaluation = one z3 query, a universe is non-trivial for C16 when it was captured and solved through the snapshot",
+                       scalings=[MAPPING_SCALE], jobs=8, extra=None if only else cert_prop.cert_extra(PROP, tier, seed))
 
 
 def replay(path):
+    if cert_prop.is_cert_replay(path):
+        return cert_prop.replay_cert(PROP, path)
     text, _ = build("thorough")
     return replay_incrate(PROP, path, [Attach(SRC, HOST, "verif_c16", text=text)], scalings=[MAPPING_SCALE])
